@@ -367,18 +367,21 @@ def st_table(draw, max_rows=6, max_width=4, ragged=None, pool=None, none_cells=T
 def st_join_table(draw, max_rows, max_width, pool, first_full, allow_empty_p=10):
     """Tables for join cases: the first 1-2 columns hold few distinct key values (so that
     multi-match and unmatched keys are common); columns beyond the first may be missing."""
-    keypool = ['a', 'b', 'ab', '']
-    if draw(st.integers(0, 3)) == 0:
+    keypool = ['a', 'b', '', 'a', 'b', 'ab']       # few distinct keys: several B records per key and keys without partner are both common
+    if draw(st.integers(0, 3)) == 3:
         # composite keys whose textual concatenation coincides although the tuples differ; digits that equal record numbers as text
         keypool = ['a', 'a,b', 'b', ',', '', '1', '2', 'a,', ',b', '3']
     width = draw(st.integers(1, max_width))
     nrows = 0 if draw(st.integers(0, allow_empty_p)) == 0 else draw(st.integers(1, max_rows))
+    if nrows == 1 and max_rows >= 3 and draw(st.integers(0, 2)):
+        nrows = draw(st.integers(2, max_rows))          # one-record tables cannot show multi-match / unmatched mixtures
     ragged = draw(st.integers(0, 2)) == 0
+    zero_ok = ragged and draw(st.integers(0, 5)) == 0      # now and then a table with records without any field (only NR keys remain usable)
     rows = []
     for i in range(nrows):
         w = width
         if ragged and not (first_full and i == 0):
-            w = draw(st.integers(0 if draw(st.integers(0, 4)) == 0 else 1, width))   # now and then a record without any field (only NR keys remain usable)
+            w = draw(st.integers(0 if zero_ok else 1, width))
         row = []
         for j in range(w):
             if j < 2:
@@ -401,13 +404,13 @@ def st_join(draw, a_min_width, b_min_width, a_names, b_names, kinds=None, max_pa
     npairs = draw(st.integers(1, max_pairs)) if draw(st.integers(0, 1)) == 0 else 1
     pairs = []
     for _ in range(npairs):
-        lk = draw(st.integers(0, 9)) if allow_nr else 1
-        if lk == 0 or a_min_width == 0:
+        lk = draw(st.integers(0, 19)) if allow_nr else 1
+        if lk == 7 or a_min_width == 0:     # a middle value: Hypothesis over-samples the ends of a range
             l = {'nr': draw(st.sampled_from(['NR', 'aNR', 'a.NR'] if a_names is None else ['NR', 'aNR']))}  # a.NR collides with the attribute scan when a header exists
         else:
             l = {'f': _keyfield(draw, 'a', a_min_width, a_names)}
-        rk = draw(st.integers(0, 9)) if allow_nr else 1
-        if rk == 0 or b_min_width == 0:
+        rk = draw(st.integers(0, 19)) if allow_nr else 1
+        if rk == 7 or b_min_width == 0:
             r = {'nr': draw(st.sampled_from(['bNR', 'b.NR'] if b_names is None else ['bNR']))}
         else:
             r = {'f': _keyfield(draw, 'b', b_min_width, b_names)}
@@ -418,6 +421,8 @@ def st_join(draw, a_min_width, b_min_width, a_names, b_names, kinds=None, max_pa
 
 def _keyfield(draw, table, min_width, names):
     idx = draw(st.integers(0, min_width - 1))
+    if idx >= 2 and draw(st.integers(0, 5)) != 3:
+        idx = draw(st.integers(0, 1))      # the first two columns hold the key-like values
     spellings = ['aN', 'a[N]']
     if names is not None and idx < len(names):
         spellings += ['a["n"]', "a['n']"]
@@ -585,7 +590,7 @@ def st_case_select(draw, js=False, join_p=3, order=False, distinct=False, top=Fa
     B, b_names, bw = None, None, 0
     a_min = min([len(r) for r in A] + [aw])
     if (force_join or (join_p and draw(st.integers(0, join_p - 1)) == 0)):
-        B, bw = st_join_table(draw, 5, 3, pool[:8], a_names is not None)
+        B, bw = st_join_table(draw, 7, 3, pool[:8], a_names is not None)
         b_min = min([len(r) for r in B] + [bw])
         b_names = st_names(draw, bw) if a_names is not None else None
         join = st_join(draw, a_min, b_min, a_names, b_names, kinds=kinds)
